@@ -17,7 +17,8 @@ Fixpoint listN_eqb (a b : list N) : bool :=
 
 (* SAll: a site reconciled by _syncChildren (old children, wanted nodes, children after);
    SProfile: profile_COMMON of an effect (old children, parameter nodes, children after, the
-   identities that are <newparam> elements, the identity of <technique>) *)
+   identities that are <newparam> elements or <image> elements local to the profile - both are
+   taken out by Effect.save, the images being written in library_images -, the identity of <technique>) *)
 Inductive site :=
   | SAll (old want got : list N)
   | SProfile (old params got newparams : list N) (tec : N).
